@@ -11,7 +11,7 @@ VARIABLE ops
 HS == { [id |-> 1, lo |-> 0, hi |-> 0, dlo |-> 1],
         [id |-> 2, lo |-> 1, hi |-> 3, dlo |-> 5],
         [id |-> 3, lo |-> 6, hi |-> 0, dlo |-> 1] }   \* id 3: same doorkeeper probes as id 1 (false positive)
-SeedChoices == { <<0, 1>>, <<3, 5>> }
+SeedChoices == { <<0, 1, 2, 3>>, <<3, 5, 6, 1>> }
 
 MCInit ==
     /\ \E n \in NumCountersSet : \E sd \in SeedChoices :
